@@ -50,6 +50,11 @@ def lift_case_st(draw):
     group = draw(st.sampled_from(["arith", "arith", "cmp", "logic", "unary", "func", "func2", "reflected", "inplace"]))
     nvec = draw(st.integers(1, 3))
     sa, sb = draw(vs.shape_pairs())
+    # a right operand with as many entries as the Vector has components (it broadcasts against every component like
+    # any other array: it is not "one number per component")
+    nvec_long = draw(st.integers(0, 7)) == 0
+    if nvec_long:
+        sa, sb = draw(st.sampled_from([[], [2, nvec], [3, nvec]])), [nvec]
     ua, ub, rel = draw(vs.unit_pairs())
     dt = draw(st.sampled_from(vs.DTYPES))
     if group == "logic":
@@ -116,6 +121,9 @@ def lift_case_st(draw):
         return case
     case["op"] = draw(st.sampled_from(ARITH if group in ("arith", "inplace") else CMPS))
     rk = draw(st.sampled_from(["V", "V", "V", "A", "num", "npf", "nd", "Q"]))
+    if nvec_long:
+        rk = draw(st.sampled_from(["nd", "nd", "A"]))
+        case["rhs_has_nvec_entries"] = True
     if group == "inplace" and op_is_muldiv(case["op"]) and draw(st.integers(0, 5)) == 0:
         # the right-hand side is one of the Vector's own components (v *= v.x, v /= v.y)
         case["rhs"] = {"k": "comp", "c": draw(st.integers(0, nvec - 1))}
@@ -334,6 +342,8 @@ def lifting(case, r):
     nvec = len(case["v"]["comps"])
     comps = list(v._xyz.values())
     r.label("group_" + group, f"nvec_{nvec}")
+    if case.get("rhs_has_nvec_entries"):
+        r.label("rhs_array_with_nvec_entries")
     if case.get("logic_dtype") and case["logic_dtype"] != "bool":
         r.label("logic_on_non_boolean_flags")
     rhs = vs.build(case["rhs"], osyris) if "rhs" in case else None
